@@ -451,6 +451,104 @@ def c08_case(ctx, book, case_seed):
                 return
 
 
+# ---------------------------------------------------------------------------------------------- C04
+
+@functools.lru_cache(maxsize=None)
+def _computed_reference_cells(book):
+    """formula cells which use OFFSET / INDIRECT (computed references are outside of the C04 statement) and
+    everything computed from them"""
+    import networkx as nx
+    import tempfile
+
+    class _Ctx:
+        pass
+    info = scan(book)
+    dyn = [a for a, t in info['text'].items() if COMPUTED_REF.search(t)]
+    if not dyn:
+        return frozenset()
+    c = _Ctx()
+    c.tmpdir = tempfile.mkdtemp(prefix='vp-dynamic-')
+    try:
+        comp = compile_primed(c, book)
+        for a in info['formulas']:
+            wb.outcome(comp.evaluate, a)
+        out = set(dyn)
+        for a in dyn:
+            node = comp.cell_map.get(a)
+            if node is not None and node in comp.dep_graph:
+                out |= {n.address.address for n in nx.descendants(comp.dep_graph, node)}
+        return frozenset(out)
+    finally:
+        shutil.rmtree(c.tmpdir, ignore_errors=True)
+
+
+def c04_case(ctx, book, case_seed):
+    """read trace of a shipped workbook: every read is covered by the declared precedents and by graph edges; a
+    changed input only changes cells that have it among their graph ancestors"""
+    import networkx as nx
+    from vp.checks import c04
+    rng = case_rng(book, case_seed)
+    info = scan(book)
+    dynamic = _computed_reference_cells(book)
+    formulas = [a for a in stable_formulas(book)]
+    targets = rng.sample(formulas, min(len(formulas), 120))
+    case = {'kind': 'real-book', 'book': book, 'case_seed': case_seed}
+    meta = {'formulas': {a: {'form': 'real'} for a in info['formulas']}}
+    c04.install()
+    c04.STATE.update(ctx=ctx, meta=meta, spec={}, found=[], reads=set(), skip_computed=True)
+    comp = compile_primed(ctx, book)
+    c04.STATE['comp'] = comp
+    before = ctx.counters.get('read_events', 0)
+    try:
+        base = {a: wb.outcome(comp.evaluate, a) for a in targets}
+    finally:
+        c04.STATE['comp'] = None
+        c04.STATE['skip_computed'] = False
+    ctx.count('real_book_cases')
+    ctx.count('real_book:' + book)
+    ctx.count('real_read_events', ctx.counters.get('read_events', 0) - before)
+    ctx.case(('real', book, case_seed), nontrivial=ctx.counters.get('read_events', 0) > before)
+    found = list(c04.STATE['found']) + c04.check_read_edges(ctx, comp)
+    g = comp.dep_graph
+    for x, node in list(comp.cell_map.items()):
+        formula = getattr(node, 'formula', None)
+        if not formula or not getattr(formula, 'needed_addresses', None):
+            continue
+        preds = {p.address.address for p in g.predecessors(node)} if node in g else set()
+        for need in formula.needed_addresses:
+            ctx.count('declared_edge_checks')
+            if need.address not in preds:
+                found.append(('declared-precedent-without-edge',
+                              f'{x} declares {need.address} but the graph has no such edge', x))
+    seen = set()
+    for key, msg, x in found:
+        if key not in seen:
+            seen.add(key)
+            ctx.violation(f'real-workbook/{key}', f'{book}: {msg}', case)
+    if found:
+        return
+    # influence: perturb one numeric input on fresh models; what changes must have it among its ancestors
+    static_targets = [a for a in targets if a not in dynamic]
+    for a, new in pick_writes(rng, book, 2):
+        other = truth(ctx, book, [(a, new)], static_targets)
+        ctx.count('influence_perturbations')
+        node_a = comp.cell_map.get(a)
+        for x in static_targets:
+            if base[x][0] == 'x' or other[x][0] == 'x':
+                continue
+            if not wb.same_outcome(base[x], other[x]):
+                ctx.count('influence_changes_seen')
+                node = comp.cell_map.get(x)
+                ok = (node_a is not None and node is not None and node_a in g and node in g and
+                      nx.has_path(g, node_a, node))
+                if not ok:
+                    ctx.violation('real-workbook/influence-outside-ancestors',
+                                  f'{book}: changing {a} from {info["numbers"][a]!r} to {new!r} changes {x} '
+                                  f'{info["text"].get(x)!r:.120} ({base[x]!r:.80} -> {other[x]!r:.80}) but {a} is not '
+                                  f'an ancestor of {x} in the dependency graph', case)
+                    return
+
+
 def run_cases(ctx, fn, books, per_shard, fraction=0.3):
     """(book, case_seed) pairs spread over the shards: at most ``per_shard`` cases and ``fraction`` of the budget"""
     stop_at = ctx.budget * (1 - fraction)
